@@ -492,7 +492,7 @@ def _run_graph(case, obs):
                 judge_pagerank(obs, r, T2, p, tag)
     # Louvain (an endless 'while improved' loop shows up as class 'hang')
     kw = {} if p["defaults"] else {"resolution": p["resolution"]}
-    r = go(_m["community"].louvain, what="louvain", budget=2_000_000 + 3000 * (n + arcs), **kw)
+    r = go(_m["community"].louvain, what="louvain", budget=1_000_000 + 1000 * (n + arcs), **kw)
     if not is_crash(r):
         judge_louvain(obs, r, T, p)
     if stats["outside"]:
